@@ -147,6 +147,10 @@ VARIANTS = {
                      '<dtml-var previous-sequence-start-number>;'
                      '<dtml-var previous-sequence-size><dtml-else>E'
                      '</dtml-in>',
+    # while the block renders an element, the same compiled template is
+    # rendered once more with another (longer) window on another sequence
+    'reentrant': '<dtml-in s start=st end=en size=sz orphan=orp overlap=ov>'
+                 '%s<dtml-var hook><dtml-else>EMPTY</dtml-in>',
     'literal': None,     # parameters written as integer literals
     'plain': '<dtml-in s start=st end=en size=sz orphan=orp overlap=ov>%s'
              '<dtml-else>EMPTY</dtml-in>',
@@ -214,11 +218,28 @@ def check(case):
             return None
         window = (int(rows0[0][0]), int(rows0[-1][0]), int(rows0[-1][1]))
     seqkind = 'lazy' if seqkind.startswith('lazy') else 'iter'
+    hook = ''
+    if variant == 'reentrant':
+        busy = []
+
+        def hook():
+            if busy:
+                return ''
+            busy.append(1)
+            try:
+                template(tkey)(s=make_seq('iter', 400)[1], rv=0,
+                               st=max(start, 1) + 7, en=-1, sz=max(size, 1)
+                               + 9, orp=orphan + 2, ov=0, hook='')
+            except Exception:
+                pass
+            finally:
+                busy.pop()
+            return ''
     try:
         with cpu_limit(5.0):
             out = template(tkey)(s=handed, rv=0,
                                  st=start, en=end, sz=size, orp=orphan,
-                                 ov=overlap)
+                                 ov=overlap, hook=hook)
     except Runaway:
         return 'no-termination', '%r: more than 20000 elements pulled' % case
     except CpuTimeout:
@@ -425,6 +446,7 @@ def plan(tier, seed):
     shards.append(dict(kind='plain'))
     for kind in SEQKINDS:
         shards.append(dict(kind='refused', seqkind=kind))
+    shards.append(dict(kind='large'))
     for L in (None, 9, 14):
         for kind in SEQKINDS:
             if kind == 'lazy-nolen' and L is not None:
@@ -457,6 +479,22 @@ def run_shard(shard):
                 acc.case(['whole', i, L], False, klass='whole-sequence')
                 if bad:
                     acc.fail(bad[0], ['whole', i, L], bad[1])
+        return acc.result()
+    if shard['kind'] == 'large':
+        # windows and look-ahead batches of realistic page sizes
+        for kind in SEQKINDS:
+            for L in (None, 1000):
+                if kind == 'lazy-nolen' and L is not None:
+                    continue
+                for start, size, orphan, overlap in itertools.product(
+                        (-1, 1, 21, 301), (20, 52, 53, 60, 100, 250),
+                        (0, 10), (0, 5)):
+                    case = [L, start, -1, size, orphan, overlap, kind]
+                    bad = check(case)
+                    acc.case(case, True, klass='large-batches',
+                             distinct_by_construction=True)
+                    if bad:
+                        acc.fail(bad[0] + ':large', case, bad[1])
         return acc.result()
     if shard['kind'] == 'refused':
         kind = shard['seqkind']
